@@ -440,48 +440,57 @@ func TestC07(t *testing.T) {
 			}
 		}
 		if cs.First == "burst" {
-			// 16 connections at once, one request each, all for a target whose options nobody used before
+			// several rounds of 32 connections at once, one request each, all for a target whose options nobody used before;
+			// the connections are opened first and the requests written together
 			nBurst++
-			target := "/ok"
-			if cs.Helper != "ok" {
-				target = fmt.Sprintf("/burst/%s/%d", cs.Helper, n)
-			}
-			const k = 16
-			res := make(chan string, k)
-			for i := 0; i < k; i++ {
-				go func() {
-					conn, err := lns[cs.Ctx].Dial()
-					if err != nil {
-						res <- "dial: " + err.Error()
-						return
-					}
-					defer conn.Close()
-					_ = conn.SetDeadline(time.Now().Add(respDeadline))
-					if _, err := conn.Write([]byte("GET " + target + " HTTP/1.1\r\nHost: w.test\r\n\r\n")); err != nil {
-						res <- "write: " + err.Error()
-						return
-					}
-					resp, err := readStrict(bufio.NewReader(conn))
-					switch {
-					case err != nil:
-						res <- "no response: " + err.Error()
-					case resp.Err != "":
-						res <- "not well-formed: " + resp.Err
-					case resp.Status != 200:
-						res <- fmt.Sprintf("status %d", resp.Status)
-					default:
-						res <- ""
-					}
-				}()
-			}
+			const k, rounds = 32, 6
 			var bad []string
-			for i := 0; i < k; i++ {
-				if r := <-res; r != "" {
-					bad = append(bad, r)
+			for round := 0; round < rounds && len(bad) == 0; round++ {
+				target := "/ok"
+				if cs.Helper != "ok" {
+					target = fmt.Sprintf("/burst/%s/%d", cs.Helper, n*100+round)
+				}
+				conns := make([]net.Conn, k)
+				for i := range conns {
+					c, err := lns[cs.Ctx].Dial()
+					if err != nil {
+						t.Fatal(err)
+					}
+					_ = c.SetDeadline(time.Now().Add(respDeadline))
+					conns[i] = c
+				}
+				res := make(chan string, k)
+				start := make(chan struct{})
+				for _, conn := range conns {
+					go func(conn net.Conn) {
+						defer conn.Close()
+						<-start
+						if _, err := conn.Write([]byte("GET " + target + " HTTP/1.1\r\nHost: w.test\r\n\r\n")); err != nil {
+							res <- "write: " + err.Error()
+							return
+						}
+						resp, err := readStrict(bufio.NewReader(conn))
+						switch {
+						case err != nil:
+							res <- "no response: " + err.Error()
+						case resp.Err != "":
+							res <- "not well-formed: " + resp.Err
+						case resp.Status != 200:
+							res <- fmt.Sprintf("status %d", resp.Status)
+						default:
+							res <- ""
+						}
+					}(conn)
+				}
+				close(start)
+				for i := 0; i < k; i++ {
+					if r := <-res; r != "" {
+						bad = append(bad, r)
+					}
 				}
 			}
 			if len(bad) > 0 {
-				fail("concurrent-requests-not-all-answered", "16 x 200", fmt.Sprintf("%d of 16: %s", len(bad), bad[0]))
+				fail("concurrent-requests-not-all-answered", "every request answered 200", fmt.Sprintf("%d unanswered or wrong, e.g. %s", len(bad), bad[0]))
 				respDeadline = time.Second
 			}
 			return
